@@ -918,7 +918,12 @@ pub fn execute(cfg: &CCfg, prefix: &[u16], suppress_stray: Option<u32>) -> Exec 
 
 pub fn hash_recs(recs: &[Rec]) -> u64 {
     let mut h = std::collections::hash_map::DefaultHasher::new();
-    recs.hash(&mut h);
+    for r in recs {
+        if matches!(r, Rec::N("hsid", _)) {
+            continue;
+        }
+        r.hash(&mut h);
+    }
     h.finish()
 }
 
